@@ -16,6 +16,9 @@ import (
 	"google.golang.org/protobuf/reflect/protoreflect"
 )
 
+// sigNegZeroDefault: float/double field whose declared default is -0, field unset, generated getter returns +0.
+const sigNegZeroDefault = "float-default-negative-zero"
+
 func canonPR(fd protoreflect.FieldDescriptor, v protoreflect.Value) string {
 	switch fd.Kind() {
 	case protoreflect.MessageKind, protoreflect.GroupKind:
@@ -140,7 +143,14 @@ func accessors(lv *levelCtx, md protoreflect.MessageDescriptor, gm, dm protorefl
 					b = "nil"
 				}
 				if a != b {
-					bad("generated getter disagrees with protoreflect Get", fd, a+" vs "+b)
+					// known on the unchanged tree: `[default = -0]` is emitted as the Go constant float64(-0), which is +0
+					if k := fd.Kind(); (k == protoreflect.FloatKind || k == protoreflect.DoubleKind) && fd.HasDefault() && !g2.Has(gfd) &&
+						fd.Default().Float() == 0 && math.Signbit(fd.Default().Float()) && a == "n0" {
+						bg, _ := det.Marshal(gm.Interface())
+						fail(lv, "generated getter of an unset float/double field with default -0 returns +0", sigNegZeroDefault, md, bg, fmt.Sprintf("field %s (%d): getter bits %s, descriptor default bits %s", fd.Name(), fd.Number(), a, b))
+					} else {
+						bad("generated getter disagrees with protoreflect Get", fd, a+" vs "+b)
+					}
 				}
 			}
 			hist("accessor:get")
